@@ -1437,6 +1437,11 @@ fn faulty_document(kind: u32, split: bool) -> (String, u32) {
     // returns (text, line of the token at which the problem is detected)
     let version = if kind == 7 || kind == 8 { "ASAP2_VERSION 1 60\n" } else if kind == 11 { "\n" } else if kind == 12 { "ASAP2_VERSION 1 80\n" } else { "ASAP2_VERSION 1 71\n" };
     let mut t = String::from(version);
+    if kind == 16 {
+        // a required element is missing: PROJECT without MODULE (diagnostic at the /end of the block)
+        t.push_str("/begin PROJECT p \"\"\n/begin HEADER \"h\"\n/end HEADER\n/end PROJECT\n");
+        return (t, 5);
+    }
     if kind >= 13 {
         // a block closed with the wrong end tag: A2ML (hand-written parser), IF_DATA, ordinary generated block
         t.push_str("/begin PROJECT p \"\"\n/begin MODULE m \"\"\n/begin MEASUREMENT ms \"\" UBYTE NO_COMPU_METHOD 0 0 0 255\n/end MEASUREMENT\n/begin UNIT u \"\" \"\" DERIVED\n");
@@ -1482,7 +1487,7 @@ fn faulty_document(kind: u32, split: bool) -> (String, u32) {
 }
 
 pub(crate) fn h_strict_vs_nonstrict() {
-    let kind = vrt_choice(16);
+    let kind = vrt_choice(17);
     let split = vrt_choice(2) == 1;
     let (text, fault_line) = faulty_document(kind, split);
     let strict = load_from_string(&text, None, true);
@@ -1518,7 +1523,7 @@ pub(crate) fn h_strict_vs_nonstrict() {
     vrt_observe_bool(relaxed.is_ok());
     match kind {
         0 | 8 => vrt_check(strict.is_ok(), "C06 a valid document loads in strict mode"),
-        1 | 2 | 3 | 7 | 9 | 10 | 11 | 12 | 13 | 14 | 15 => {
+        1 | 2 | 3 | 7 | 9 | 10 | 11 | 12 | 13 | 14 | 15 | 16 => {
             vrt_check(strict.is_err(), "C06 strict loading rejects a recoverable problem");
             vrt_check(relaxed.is_ok(), "C06 non-strict loading recovers from a recoverable problem");
         }
@@ -2193,7 +2198,7 @@ pub(crate) fn h_c20_documents() {
 
 /// fault kinds of the C06 family in both modes, unknown elements inside real blocks (C07 family)
 pub(crate) fn h_c20_faults() {
-    let kind = vrt_choice(16);
+    let kind = vrt_choice(17);
     let split = vrt_choice(2) == 1;
     let strict = vrt_choice(2) == 1;
     let (text, _) = faulty_document(kind, split);
@@ -2570,3 +2575,101 @@ fn unknown_before_element(chunk: u32, chunks: u32) {
 }
 pub(crate) fn h_unknown_before_element_0() { unknown_before_element(0, 2); }
 pub(crate) fn h_unknown_before_element_1() { unknown_before_element(1, 2); }
+
+// ------------------------------------------------------------------ C01: a model built and edited through the public API
+
+/// a model made only with new()/T::new()/push and field edits (every layout value is the constructor default) is
+/// written, loaded again and compared; then edited, written and compared again
+pub(crate) fn h_api_built_model() {
+    let mut file = crate::new();
+    // a few values are symbolic (small widths: formatting and re-parsing 32/64-bit symbolic values is C02's subject)
+    let addr = 0xFFFF_0000u32 | vrt_any_u8() as u32;
+    let mask = u64::MAX;
+    let off = vrt_any_i8() as i32;
+    {
+        let m = &mut file.project.module[0];
+        let mut rl = RecordLayout::new(String::from("rl"));
+        rl.fnc_values = Some(FncValues::new(1, DataType::Ubyte, IndexMode::RowDir, AddrType::Direct));
+        m.record_layout.push(rl);
+        let mut cm = CompuMethod::new(String::from("cm"), String::from("linear"), ConversionType::RatFunc, String::from("%6.3"), String::from("unit"));
+        cm.coeffs = Some(Coeffs::new(0.0, 2.0, 1.0, 0.0, 0.0, 1.0));
+        m.compu_method.push(cm);
+        let mut ms = Measurement::new(String::from("ms"), String::from("a \"quoted\" text"), DataType::Uword, String::from("cm"), 1, 0.5, 0.0, 131071.0);
+        ms.ecu_address = Some(EcuAddress::new(addr));
+        ms.bit_mask = Some(BitMask::new(mask));
+        ms.symbol_link = Some(SymbolLink::new(String::from("sym"), off));
+        let mut an = Annotation::new();
+        an.annotation_label = Some(AnnotationLabel::new(String::from("label")));
+        let mut at = AnnotationText::new();
+        at.annotation_text_list.push(String::from("line 1"));
+        at.annotation_text_list.push(String::from("line 2"));
+        an.annotation_text = Some(at);
+        ms.annotation.push(an);
+        let mut md = MatrixDim::new();
+        md.dim_list.push(2);
+        md.dim_list.push(3);
+        ms.matrix_dim = Some(md);
+        m.measurement.push(ms);
+        let ch = Characteristic::new(String::from("ch"), String::new(), CharacteristicType::Value, 0x1000, String::from("rl"), 0.0, String::from("NO_COMPU_METHOD"), 0.0, 255.0);
+        m.characteristic.push(ch);
+        let mut g = Group::new(String::from("grp"), String::from("group"));
+        let mut rm = RefMeasurement::new();
+        rm.identifier_list.push(String::from("ms"));
+        g.ref_measurement = Some(rm);
+        m.group.push(g);
+        let mut f = Function::new(String::from("fn1"), String::new());
+        m.function.push(f);
+    }
+    let out1 = file.write_to_string();
+    match load_from_string(&out1, None, true) {
+        Ok((file2, log)) => {
+            vrt_check(log.is_empty(), "C01 a model built through the API is written as a document that loads in strict mode without diagnostics");
+            vrt_check(file2 == file, "C01 load(write(M)) == M for a model built through the public API");
+            vrt_check(crate::verif_fp::fingerprint(&file2) == crate::verif_fp::fingerprint(&file), "C01 every data field of an API-built model survives write and reload");
+            let out2 = file2.write_to_string();
+            vrt_check(out2 == out1, "C01 the second write of an API-built model is identical to the first");
+            // edit through the API: a field edit, a removed optional element, a new element
+            let mut file3 = file2.clone();
+            {
+                let m = &mut file3.project.module[0];
+                m.measurement[0].resolution = 7;
+                m.measurement[0].symbol_link = None;
+                m.unit.push(Unit::new(String::from("un"), String::from("new unit"), String::from("x"), UnitType::Derived));
+            }
+            let out3 = file3.write_to_string();
+            match load_from_string(&out3, None, true) {
+                Ok((file4, _)) => {
+                    vrt_check(file4 == file3, "C01 load(write(M)) == M after edits through the API");
+                    vrt_check(file4.write_to_string() == out3, "C01 the second write after edits is identical");
+                }
+                Err(_) => vrt_check(false, "C01 an edited model can be written and loaded"),
+            }
+        }
+        Err(_) => vrt_check(false, "C01 a model built through the API can be written and loaded in strict mode"),
+    }
+    vrt_cover(true, "api_built_model_end");
+}
+
+const EVERY_ELEMENT_STAGGERED: &str = include_str!("verif_every_element_staggered.txt");
+
+/// the every-element document with a staggered layout: the i-th parameter of each element starts on the same line, on
+/// the next line or after a blank line, in rotation - adjacent parameters always differ in their line offset, so any
+/// mix-up of the per-parameter layout slots of an element shows in the written text
+pub(crate) fn h_every_element_layout() {
+    vrt_cover(!crate::verif_fp::VERIF_FP_STUB, "generated document and fingerprint module are in place");
+    match load_from_string(EVERY_ELEMENT_STAGGERED, None, true) {
+        Ok((file, log)) => {
+            vrt_soft_check(log.is_empty(), "C05 (harness) the staggered every-element document is valid");
+            let out1 = file.write_to_string();
+            vrt_soft_check(out1.trim() == EVERY_ELEMENT_STAGGERED.trim(), "C05 the line position of every parameter of every element is reproduced byte for byte");
+            match load_from_string(&out1, None, true) {
+                Ok((file2, _)) => {
+                    vrt_soft_check(file2 == file, "C01 load(write(M)) == M on the staggered every-element document");
+                    vrt_soft_check(file2.write_to_string() == out1, "C01 the second write of the staggered every-element document is identical to the first");
+                }
+                Err(_) => vrt_soft_check(false, "C01 the written staggered every-element document loads again"),
+            }
+        }
+        Err(_) => vrt_soft_check(false, "C05 (harness) the staggered every-element document loads in strict mode"),
+    }
+}
